@@ -175,11 +175,21 @@ pub fn run(seed: u64, thorough: bool, out: &mut Out) {
         if r.chance(1, 2) {
             let nv = p.nvars;
             let v = |r: &mut Rng| T::Var(r.below(nv));
-            let s = match r.below(4) {
+            let s = match r.below(6) {
                 0 => T::cons(v(&mut r), v(&mut r)),
                 1 => T::list(vec![v(&mut r), T::list(vec![v(&mut r)])]),
                 2 => T::Comp(0, vec![v(&mut r), T::cons(T::Num(1), v(&mut r))]),
-                _ => T::Comp(2, vec![T::list(vec![v(&mut r)]), v(&mut r)]),
+                3 => T::Comp(2, vec![T::list(vec![v(&mut r)]), v(&mut r)]),
+                // compounds with an `Option` field after / before a term field (children that are not terms are
+                // reified by a separate recursion: the names given so far must survive it)
+                4 => {
+                    let opt = if r.chance(1, 3) { T::Comp(4, vec![]) } else { T::Comp(4, vec![T::Comp(1, vec![v(&mut r), v(&mut r), v(&mut r)])]) };
+                    T::Comp(5, vec![v(&mut r), opt])
+                }
+                _ => {
+                    let opt = if r.chance(1, 3) { T::Comp(4, vec![]) } else { T::Comp(4, vec![T::Comp(1, vec![v(&mut r), v(&mut r), v(&mut r)])]) };
+                    T::Comp(3, vec![opt, T::list(vec![v(&mut r), v(&mut r)])])
+                }
             };
             let pos = r.below(p.body.len() + 1);
             p.body.insert(pos, PG::Eq(T::Var(r.below(p.nq)), s));
